@@ -43,6 +43,8 @@ func (p *printer) write(v interface{}) {
 	switch v := v.(type) {
 	case bool:
 		io.WriteString(p.p, strconv.FormatBool(v))
+	case json.Number:
+		io.WriteString(p.p, v.String())
 	case float64:
 		s := strconv.FormatFloat(v, 'g', -1, 64)
 		io.WriteString(p.p, s)
@@ -149,8 +151,12 @@ func Fprint(w io.Writer, v interface{}) error {
 		return err
 	}
 
+	// Numbers are kept as the literals json.Marshal wrote, so that 64-bit
+	// integers do not lose precision through float64.
 	var g interface{}
-	if err := json.Unmarshal(bs, &g); err != nil {
+	dec := json.NewDecoder(bytes.NewReader(bs))
+	dec.UseNumber()
+	if err := dec.Decode(&g); err != nil {
 		return err
 	}
 
